@@ -117,6 +117,7 @@ def run_job(job):
             c = Context(name=name, timeout_ms=opts.get("timeout_ms", 20000),
                         max_paths=opts.get("max_paths", 20000), unwind=opts.get("unwind", 64),
                         exact=opts.get("exact", True))
+            c.max_wall_s = opts.get("max_wall_s", 600)
 
             def harness(cx):
                 kw = dict(kwargs)
